@@ -43,7 +43,7 @@ def skew_cell(base, P):
     return [float(x) for x in tools.a_to_cell(A @ np.array(P, float).T)]
 
 
-THOROUGH_BOXES = {'fcc-primitive': [4.0, 4.0, 4.0, 60.0, 60.0, 60.0], 'hexagonal': [3.0, 3.0, 5.0, 90.0, 90.0, 120.0]}
+THOROUGH_BOXES = {'fcc-primitive': [4.0, 4.0, 4.0, 60.0, 60.0, 60.0], 'hexagonal': [3.0, 3.0, 5.0, 90.0, 90.0, 120.0], 'acute-gamma': [4.0, 4.2, 6.5, 85.0, 95.0, 55.0]}
 
 
 def units(tier):
@@ -53,6 +53,10 @@ def units(tier):
     for m in ('tools', 'laue'):
         for b in list(BOXES):
             us.append({'name': '%s/%s' % (m, b), 'module': m, 'box': b, 'cost': 5})
+        if tier != 'quick':
+            # history with a LARGER range than the preceding call: concrete call with uvw=1, then the symbolic run with uvw=2 (63 candidates)
+            # on a box whose shortest vector (1,-1,0) is outside the range of uvw=1
+            us.append({'name': '%s/acute-gamma@uvw2-after-uvw1' % m, 'module': m, 'box': 'acute-gamma', 'uvw': 2, 'prime': 1, 'cost': 50})
     return us
 
 
@@ -110,6 +114,8 @@ class Ratio:
 
 def run_unit(u, desc, tier, seed):
     modname, box = desc['module'], desc['box']
+    UVW = desc.get('uvw', globals()['UVW'])
+    PRIME = desc.get('prime', 2)
     mod = importlib.import_module('xfab.' + modname)
     if box in THOROUGH_BOXES:
         c0 = THOROUGH_BOXES[box]
@@ -136,7 +142,7 @@ def run_unit(u, desc, tier, seed):
     u.prove('C18/%s.reduce_cell/box-is-valid/%s' % (modname, box), ctx.base(), C.cell_pre(zc, f)[0], replay=None, detail='Gram determinant >= 0.02 on the whole box', timeout=60)
     # history independence: a legal concrete call with another search range first
     try:
-        mod.reduce_cell(list(c0), uvw=2)
+        mod.reduce_cell(list(c0), uvw=PRIME)
     except Exception:
         pass
 
@@ -210,7 +216,7 @@ def run_unit(u, desc, tier, seed):
     for li, leaf in enumerate(leaves):
         tag = '/%s/p%d' % (box, li)
         pre_l = ctx.base() + leaf['pc']
-        rp = mk_replay(f, modname)
+        rp = mk_replay(f, modname, UVW if 'uvw' in desc else None, PRIME)
         if leaf['exception'] is not None:
             u.prove('C18/%s.reduce_cell/no-exception%s' % (modname, tag), pre_l, z3.BoolVal(False), replay=rp, detail=repr(leaf['exception']), timeout=20)
             continue
@@ -333,15 +339,15 @@ def recover_selection(f, mod, modname, cell, A, leaf, ctx, npx):
     return [v1, v2, v3]
 
 
-def numeric(modname, cell, tol=1e-6):
+def numeric(modname, cell, tol=1e-6, uvw=None, prime=2):
     mod = importlib.import_module('xfab.' + modname)
     try:
-        mod.reduce_cell(list(cell), uvw=2)
+        mod.reduce_cell(list(cell), uvw=prime)
     except Exception:
         pass
     bad = []
     try:
-        out = np.asarray(mod.reduce_cell(list(cell)), float)
+        out = np.asarray(mod.reduce_cell(list(cell)) if uvw is None else mod.reduce_cell(list(cell), uvw), float)
         A = mod.form_a_mat(cell)
         G = A.T @ A
         # metric of the returned cell
@@ -372,6 +378,8 @@ def numeric(modname, cell, tol=1e-6):
         if not found:
             bad.append(('metric', 'returned cell %s is not a basis of the lattice of %s (no unimodular P with |entries| <= 3)' % (np.round(out, 5).tolist(), [round(x, 5) for x in cell])))
         else:
+            if uvw is not None:
+                cands = [q for q in itertools.product(range(-uvw, uvw), repeat=3) if q != (0, 0, 0)]
             shortest = min(np.array(q) @ G @ np.array(q) for q in cands)
             if Gr[0, 0] > shortest * (1 + 1e-6):
                 bad.append(('shortest', 'first returned length %.6f but a lattice vector of length %.6f exists' % (a, math.sqrt(shortest))))
@@ -380,12 +388,12 @@ def numeric(modname, cell, tol=1e-6):
     return bad
 
 
-def mk_replay(f, modname):
+def mk_replay(f, modname, uvw=None, prime=2):
     def replay(model):
         env = C.env_from_model(f, model)
         cell = C.cell_floats(env)
-        bad = numeric(modname, cell)
-        rec = {'module': modname, 'cell': cell}
+        bad = numeric(modname, cell, uvw=uvw, prime=prime)
+        rec = {'module': modname, 'cell': cell, 'uvw': uvw, 'prime': prime}
         if bad:
             return True, rec, '; '.join('%s: %s' % b for b in bad[:2])
         return False, rec, 'property holds numerically at the model cell %s' % (cell,)
@@ -394,5 +402,5 @@ def mk_replay(f, modname):
 
 def replay(rec):
     r = rec['replay']
-    bad = numeric(r['module'], r['cell'])
+    bad = numeric(r['module'], r['cell'], uvw=r.get('uvw'), prime=r.get('prime', 2))
     return bool(bad), '; '.join('%s: %s' % b for b in bad) or 'property holds on the recorded input'
